@@ -278,7 +278,17 @@ static void poolEpoch(int n, uint64_t ticket, uint64_t seed) {
    unsigned k = 0;
    while (g_ready.load(std::memory_order_relaxed) < n) { if (++k > 200) sched_yield(); }
    g_startFlag.store(static_cast<int>(ticket), std::memory_order_relaxed);
-   for (int t = 1; t <= n; ++t) { k = 0; while (g_pool.done[t].load(std::memory_order_acquire) != ticket) { if (++k > 200) sched_yield(); } }
+   double t0 = 0;
+   for (int t = 1; t <= n; ++t) {
+      k = 0;
+      while (g_pool.done[t].load(std::memory_order_acquire) != ticket) {
+         if (++k > 200) sched_yield();
+         if ((k & 0xffff) == 0) {         // an epoch takes microseconds; no termination within 20 s ends the run
+            if (t0 == 0) t0 = now();
+            else if (now() - t0 > 20.0) { vh::write_crash("hang: instance() did not return in every thread"); _exit(72); }
+         }
+      }
+   }
    std::string rets = "[", args = "[", paths = "[";
    for (int t = 1; t <= n; ++t) {
       const uint64_t w = g_slots[t].arrive.load(std::memory_order_relaxed);
@@ -452,7 +462,14 @@ static int mtRandom(uint64_t seed, long cases) {
       vj::Line().str("e", "MtStep").str("who", "c").num("seq", ++seqC).str("from", "after_spawn").str("to", "live").emit();
       for (int i = 0; i < early; ++i) vj::Line().str("e", "ObserveAny").num("seq", ++seqO).boolean("b", mt->isActive()).emit();
       unsigned n = 0;
-      while (g_fStarted.load(std::memory_order_acquire) == 0) { if (++n > 500) sched_yield(); }
+      double t0 = 0;
+      while (g_fStarted.load(std::memory_order_acquire) == 0) {
+         if (++n > 500) sched_yield();
+         if ((n & 0xffff) == 0) {
+            if (t0 == 0) t0 = now();
+            else if (now() - t0 > 20.0) { vh::write_crash("hang: the thread function did not start"); _exit(72); }
+         }
+      }
       std::vector<bool> running;
       for (int i = 0; i < during; ++i) running.push_back(mt->isActive());      // the function provably runs
       g_fMayEnd.store(1, std::memory_order_release);
